@@ -80,9 +80,10 @@ Proof.
   intros Hv. unfold bl_calc_offset. destruct ab as [a|].
   - destruct (0 <? v) eqn:Hpos.
     + destruct (bl_tweak_mul a v) as [r1|] eqn:Hm; [|discriminate].
-      destruct vb as [w|]; [|discriminate].
+      apply tweak_mul_spec in Hm.
+      destruct vb as [w|]; [|intros [= <-]; cbn [bl_v]; rewrite Hm; eqn_ring].
       destruct (bl_negate w) as [vn|] eqn:Hn; [|discriminate].
-      apply tweak_mul_spec in Hm. apply negate_spec in Hn.
+      apply negate_spec in Hn.
       destruct (bytes_eqb vn r1) eqn:He.
       * intros [= <-]. apply bytes_eqb_eq in He. subst vn. cbn [bl_v]. rewrite bl_sc_zero32.
         transitivity (bl_sc r1 + bl_sc w). { rewrite Hn. eqn_ring. } rewrite Hm. eqn_ring.
@@ -96,7 +97,10 @@ Qed.
 Lemma sub_spec a b r : bl_sub a b = Some r -> eqn (bl_v r) (bl_v a - bl_v b).
 Proof.
   unfold bl_sub. destruct b as [bb|].
-  - destruct (bl_negate bb) as [nb|] eqn:Hn; [|discriminate]. apply negate_spec in Hn.
+  - destruct (match a with Some aa => bytes_eqb aa bb | None => false end) eqn:He.
+    { destruct a as [aa|]; [|discriminate]. apply bytes_eqb_eq in He. subst bb. intros [= <-].
+      cbn [bl_v]. rewrite bl_sc_zero32. eqn_ring. }
+    destruct (bl_negate bb) as [nb|] eqn:Hn; [|discriminate]. apply negate_spec in Hn.
     destruct a as [aa|].
     + destruct (bl_tweak_add aa nb) as [x|] eqn:Ha; [|discriminate]. intros [= <-].
       apply tweak_add_spec in Ha. cbn [bl_v]. rewrite Ha, Hn. eqn_ring.
@@ -111,26 +115,27 @@ Proof.
   intros Hv. unfold bl_add_offset.
   assert (Hgen : match bl_calc_offset v ab vb with
           | None => None
-          | Some so => match s with
-              | None => Some so
-              | Some ss => match so with
-                  | None => None
-                  | Some o => match bl_negate o with
+          | Some so => match so with
+              | None => Some s
+              | Some o => match s with
+                  | None => Some so
+                  | Some ss => match bl_negate o with
                       | None => None
                       | Some nv => if bytes_eqb ss nv then Some (Some bl_zero32)
                                    else match bl_tweak_add ss o with None => None | Some r => Some (Some r) end
                       end end end end = Some r -> eqn (bl_v r) (bl_v s + (v * bl_v ab + bl_v vb))).
   { destruct (bl_calc_offset v ab vb) as [so|] eqn:Hc; [|discriminate].
     apply calc_offset_spec in Hc; [|exact Hv].
-    destruct s as [ss|].
-    - destruct so as [o|]; [|discriminate].
-      destruct (bl_negate o) as [nv|] eqn:Hn; [|discriminate]. apply negate_spec in Hn.
-      destruct (bytes_eqb ss nv) eqn:He.
-      + intros [= <-]. apply bytes_eqb_eq in He. subst nv. cbn [bl_v] in *. rewrite bl_sc_zero32.
-        rewrite <- Hc. rewrite Hn. eqn_ring.
-      + destruct (bl_tweak_add ss o) as [x|] eqn:Ha; [|discriminate]. intros [= <-].
-        apply tweak_add_spec in Ha. cbn [bl_v] in *. rewrite Ha. rewrite Hc. reflexivity.
-    - intros [= <-]. cbn [bl_v]. rewrite Hc. eqn_ring. }
+    destruct so as [o|].
+    - destruct s as [ss|].
+      + destruct (bl_negate o) as [nv|] eqn:Hn; [|discriminate]. apply negate_spec in Hn.
+        destruct (bytes_eqb ss nv) eqn:He.
+        * intros [= <-]. apply bytes_eqb_eq in He. subst nv. cbn [bl_v] in *. rewrite bl_sc_zero32.
+          rewrite <- Hc. rewrite Hn. eqn_ring.
+        * destruct (bl_tweak_add ss o) as [x|] eqn:Ha; [|discriminate]. intros [= <-].
+          apply tweak_add_spec in Ha. cbn [bl_v] in *. rewrite Ha. rewrite Hc. reflexivity.
+      + intros [= <-]. cbn [bl_v]. rewrite Hc. eqn_ring.
+    - intros [= <-]. cbn [bl_v] in Hc. rewrite <- Hc. eqn_ring. }
   destruct ab as [a|]; [exact Hgen|]. destruct vb as [w|]; [exact Hgen|].
   intros [= <-]. cbn [bl_v]. eqn_ring.
 Qed.
